@@ -7,12 +7,6 @@ Inductive case :=
   Case (x : list row) (dups : list row) (consec : result (list row))
        (dups_s : list string) (consec_s : result (list string)).
 
-Definition res_eqb {A} (eqb : A -> A -> bool) (a b : result A) : bool :=
-  match a, b with
-  | Ok u, Ok v => eqb u v
-  | Err e, Err f => exn_eqb e f
-  | _, _ => false
-  end.
 Definition rows_eqb := list_eqb row_eqb.
 Definition strs_eqb := list_eqb String.eqb.
 
